@@ -1,17 +1,37 @@
 (* C12 — property theorems only.  Each is closed by [exact <lemma>] and followed by
    Print Assumptions; the statements are pinned here so they cannot be quietly weakened. *)
-From FB Require Import C12.Model C12.TheoryTree C12.TheoryOrd C12.TheoryDet C12.TheoryPlace C12.TheoryTok
-  C12.TheoryRT C12.TheoryFuel C12.Theory.
+From FB Require Import C12.Model C12.TheoryTree C12.TheoryOrd C12.TheoryDet C12.TheoryMembers C12.TheoryPlace C12.TheoryTok
+  C12.TheoryLines C12.TheoryRT C12.TheoryFuel C12.Theory.
 From Coq Require Import Permutation Sorted.
 
 (* Th 1: writing a mapping set that satisfies the (decidable) hypotheses as one Enigma stream and
    reading it back succeeds and yields the same classes under the same source keys with the same
-   names, comments, fields, methods and parameters — up to insertion order, constructors unnamed,
-   parameters without source name *)
+   names, comments, fields, methods and parameters — up to insertion order and constructors unnamed
+   (enigma_norm, written out in C12_norm_spec below; nothing else may change).  Among the hypotheses:
+   parameters have no first-namespace name (the format has no place for one) *)
 Theorem C12_read_write_all : forall M, enigma_okb M = true ->
   exists text back, write_all M = Ok text /\ read_all text = Ok back /\ classes_sim back (enigma_norm M).
 Proof. exact read_write_all. Qed.
 Print Assumptions C12_read_write_all.
+
+(* the only deviation the round trip is allowed: a method target `<init>` becomes absent; a target
+   `<clinit>`, a target equal to the source name, every other cell, comment and parameter stays *)
+Theorem C12_norm_spec : forall M,
+  enigma_norm M =
+  map (fun c => mkClass (c_names c) (c_doc c) (c_fields c)
+         (map (fun m => mkMeth (m_desc m)
+                          [Some (src_of (m_names m));
+                           match dst_of (m_names m) with
+                           | Some d => if str_eqb d s_init then None else Some d
+                           | None => None
+                           end]
+                          (m_doc m) (m_params m)) (c_methods c))) M.
+Proof. exact enigma_norm_spec. Qed.
+Print Assumptions C12_norm_spec.
+
+Theorem C12_norm_only_ctor : forall m, row2 (m_names m) = true -> dst_of (m_names m) <> Some s_init -> norm_meth m = m.
+Proof. exact norm_meth_id. Qed.
+Print Assumptions C12_norm_only_ctor.
 
 (* the same through a directory (one file per parent-free class, read back in sorted path order) *)
 Theorem C12_read_write_dir : forall M, enigma_okb M = true -> dir_okb M = true ->
@@ -58,6 +78,27 @@ Theorem C12_files_sorted : forall M fs, files M = Ok fs ->
 Proof. exact files_sorted. Qed.
 Print Assumptions C12_files_sorted.
 
+(* output is sorted below file level too: a class is written as its CLASS line, its comment, its
+   fields sorted by (names row, descriptor), its methods sorted the same way, each method with its
+   parameters sorted by (index, names row) — whatever the insertion order was *)
+Theorem C12_members_sorted : forall c ind ls, write_class c ind = Ok ls ->
+  exists fs ms mls,
+    sorted_of field_wleb fs (c_fields c)
+    /\ sorted_of meth_wleb ms (c_methods c)
+    /\ Forall2 (fun m ml => exists ps pls, meth_text (S ind) m ps pls ml) ms mls
+    /\ ls = class_line ind (short_name (negb (Nat.eqb ind 0)) (cls_key c))
+                      (option_map (short_name (negb (Nat.eqb ind 0))) (cls_dst c))
+              :: comment_lines (S ind) (c_doc c) ++ flat_map (write_field (S ind)) fs ++ concat mls.
+Proof. exact members_sorted. Qed.
+Print Assumptions C12_members_sorted.
+
+(* and the classes written inside a class are its children sorted by source name *)
+Theorem C12_kids_sorted : forall M c,
+  sorted_of key_leb (kids M c)
+    (filter (fun x => match parent_in M x with Some p => str_eqb p (cls_key c) | None => false end) M).
+Proof. exact kids_sorted. Qed.
+Print Assumptions C12_kids_sorted.
+
 (* the fuel of the model's deque loop is never exhausted: it computes the pre-order of the tree *)
 Theorem C12_tree_fuel_suffices : forall M r, keys_nodup M -> In r M -> tree_nodes M r = Ok (T (bound M) M r 0).
 Proof. exact tree_nodes_T. Qed.
@@ -76,7 +117,7 @@ Proof. exact parse_dec. Qed.
 Print Assumptions C12_index_roundtrip.
 
 (* non-vacuity: a set with a nested class, an orphan inner class, a class without target, a
-   constructor, a parameter with comment and source name, comments with blank lines, leading
+   constructor, a static initialiser `<clinit>` -> `<clinit>`, an identity-mapped method, a parameter with comment, comments with blank lines, leading
    spaces and `#` satisfies all hypotheses; its round trip is computed *)
 Theorem C12_examples : nonvacuous.
 Proof. exact nonvacuous_holds. Qed.
